@@ -12,11 +12,17 @@ def _add(prop, **kw):
 
 _add(
     'C03', machine='edit', level='exploration',
-    tiers={'quick': {'count': 6000, 'budget_s': 40},
+    tiers={'quick': {'count': 15000, 'budget_s': 40},
            'thorough': {'count': 400000, 'budget_s': 780}},
     rule=('seeded operation histories (get/set/del by name, index, negative '
           'index, VARARGS, slice; valid and deliberately invalid) on one '
           'Buildable over a generated signature, lock-step against ArgModel; '
+          'values include equal-but-differently-typed constants, "twins" (equal, '
+          'another object) and values chosen equal to what the slot holds; '
+          'some edits run under suspend_tracking; the config is swapped for its '
+          'copy / deepcopy / pickle between edits (a value that cannot be '
+          'deep-copied makes that a refusal that must change nothing); an '
+          'equal-signature decoy callable may be configured first; '
           'a run is non-trivial if it applied >=3 state-changing edits or >=1 '
           'rejected op; distinct = distinct case hash'),
     real_vs_stub=REAL + 'stub: the configured callables (generated per run), '
@@ -24,7 +30,9 @@ _add(
     assumptions=['inspect.signature is the ground truth for the signature',
                  'ArgModel (DESIGN Appendix A) encodes the property sentence',
                  'sampling, not exhaustive'],
-    required_probes=['tail_changed', 'tail_compaction_shifted'],
+    required_probes=['tail_changed', 'tail_compaction_shifted',
+                     'edit_while_tracking_suspended', 'swapped_for_copy',
+                     'uncopyable_refused', 'equal_signature_decoy_first'],
     level_text=('seeded search over edit histories x signature shapes x '
                 'deliberately invalid operations, every observation the '
                 'property lists compared with a list/dict reference model '
@@ -35,22 +43,27 @@ _add(
                 'positional-only, <= 3 positional-or-keyword, <= 2 keyword-only '
                 'parameters'),
     technique=('deterministic simulation: seeded operation histories with '
-               'injected rejected operations, lock-step reference model, '
-               'shrinking + replay'),
+               'injected rejected operations and refused copies, lock-step '
+               'reference model, shrinking + replay'),
 )
 _add(
     'C01', machine='edit', level='exploration',
-    tiers={'quick': {'count': 6000, 'budget_s': 40},
+    tiers={'quick': {'count': 15000, 'budget_s': 40},
            'thorough': {'count': 400000, 'budget_s': 780}},
     rule=('same histories as C03 with `build` allowed after any prefix; '
           'oracle = direct call of the stub with the arguments the model says '
-          'are configured; unformable => build must raise; non-trivial / '
-          'distinct as for C03'),
+          'are configured; unformable => build must raise; faults: a nested '
+          'callable raises (one of six classes) => f must not be called with '
+          'what is left; callees that modify the containers they are given => '
+          'the reported arguments must not change by building; when the edit '
+          'view diverges from the model a build is compared right there; '
+          'non-trivial / distinct as for C03'),
     real_vs_stub=REAL + 'stub: the configured callables, the CallModel oracle',
     assumptions=['a gap filled by passing the default explicitly is '
                  'indistinguishable to the callee',
                  'sampling, not exhaustive'],
-    required_probes=['build_ok', 'build_unformable', 'build_gap_default'],
+    required_probes=['build_ok', 'build_unformable', 'build_gap_default',
+                     'build_with_failing_child', 'build_with_mutating_callee'],
     level_text=('seeded search; build is one more operation of the edit '
                 'machine, allowed after any prefix of edits, and its result is '
                 'compared with a direct call of the same callable with the '
@@ -63,8 +76,9 @@ _add(
     level_note=('trusted: Python call semantics, ArgModel.call_args; passing '
                 'the default explicitly for a gap is treated as equivalent; '
                 'build refusing a gap that has a default is accepted'),
-    technique=('deterministic simulation: seeded edit histories, direct-call '
-               'oracle (CallModel), shrinking + replay'),
+    technique=('deterministic simulation with fault injection: seeded edit '
+               'histories, failing / mutating callables, direct-call oracle '
+               '(CallModel), shrinking + replay'),
 )
 
 _BUILD_RVS = REAL + ('stub: configured callables (fresh per run, consult the '
@@ -78,13 +92,19 @@ _add(
           'nodes and containers, equal-but-distinct twins); EVERY Config node '
           'of the DAG is made the failing node in turn (exhaustive over crash '
           'points of that DAG) with the exception shape / format-fault of the '
-          'run, each followed by a fault-free build; plus a nested-build fault; '
+          'run (25 shapes incl. the classes plumbing likes to catch; the very '
+          'exception object raised again by another node; a sanctioned '
+          'auto_unconfig build before the failure; a callable whose own str() '
+          'fails), each followed by a fault-free build; nested-build attempts '
+          '(nine argument kinds, auto_unconfig preludes, later callables); '
+          'residue of refused update_callable; callees that modify their '
+          'arguments; edits between builds; '
           'non-trivial = DAG with >= 2 Buildables; distinct = distinct DAG hash'),
     real_vs_stub=_BUILD_RVS,
     assumptions=['the failing callable is identified by its unique uid '
                  'argument (twins share a uid; any twin is accepted as path '
                  'target)',
-                 'exception shapes are the 18 listed in fsim/stubmod.py'],
+                 'exception shapes are the 25 listed in fsim/stubmod.py'],
     required_probes=['path_checked', 'fault_free_builds'],
     level_text=('fault enumeration: for every generated DAG every Config node '
                 'fails once (crash point enumeration is exhaustive per DAG; '
@@ -105,13 +125,17 @@ _add(
     rule=('same DAGs as C05; two fault-free builds each: recorded invocation '
           'history checked for exactly-once and dependencies-first, built graph '
           'mirrored against the config graph by identity, the two builds '
-          'share no built object; the trace rules are re-checked on the prefix '
-          'before every injected failure; non-trivial / distinct as C05'),
+          'share no built object; the same again after edits made between '
+          'builds (half of them under suspend_tracking); the trace rules are '
+          're-checked on the prefix before every injected failure, and a build '
+          'that returns after a failure must not have invoked anything twice; '
+          'non-trivial / distinct as C05'),
     real_vs_stub=_BUILD_RVS,
     assumptions=['direct bottom-up evaluation with one call per node instance '
                  'is the reference for the built graph'],
     required_probes=['fault_free_builds', 'tempbox_in_dag', 'deep_chain',
-                     'equal_but_distinct_nodes'],
+                     'equal_but_distinct_nodes', 'edit_between_builds',
+                     'edit_while_tracking_suspended'],
     level_text=('history check over the recorded invocation log of the C05 '
                 'engine (fault-free arm and failure prefixes); the identity '
                 'clauses are a graph comparison that comes for free from the '
@@ -126,16 +150,24 @@ _add(
 
 _add(
     'C19', machine='threads', level='exploration',
-    tiers={'quick': {'count': 9000, 'budget_s': 45},
+    tiers={'quick': {'count': 9000, 'budget_s': 60},
            'thorough': {'count': 500000, 'budget_s': 840}},
     rule=('2-3 real threads released one at a time by a baton scheduler; '
           'pre-emption at every source line of fiddle/_src function frames and '
           'at explicit pause points inside slow stub callables; policies: '
-          'random walk (p in .02/.1/.3), PCT (d<=3), run-to-pause; each thread '
+          'random walk (p in .02/.1/.3), PCT (d<=3), run-to-pause, hot walk '
+          '(pre-empts preferably inside functions that a static scan finds '
+          'touching module-level mutable state or filling a private attribute, '
+          'optionally only the first times a thread executes the line, then '
+          'lets the other thread run a long stretch); each thread '
           'runs <= 12 ops (construct = first signature lookup of a shared '
           'callable, edits in/outside suspend_tracking, build with slow / '
           'failing / nested-building callable, deepcopy, ==, JSON round trip, '
-          'history read) on its own configs; non-trivial = >= 1 context switch; '
+          'history read, short-lived configs of a callable nothing else '
+          'configures, sequences of growing length, late registration of a '
+          'node traverser) on its own configs, some of which are per-thread deep '
+          'copies of templates made before the threads start; '
+          'non-trivial = >= 1 context switch; '
           'distinct = distinct (programs, interleaving digest)'),
     real_vs_stub=REAL + ('real threads, real threading.local; stub: configured '
                          'callables, the scheduler (sys.settrace baton), '
@@ -146,11 +178,18 @@ _add(
                  '3.12.1 segfaults with f_trace_opcodes while threads are '
                  'parked in trace callbacks',
                  'history.custom_location is documented as temporary global '
-                 'state and is not driven'],
+                 'state and is not driven',
+                 'whether a value of a late-registered type is traversed '
+                 'before the registration is a matter of order; only what is '
+                 'observed after registering is compared'],
     required_probes=['explicit_pause_points'],
     level_text=('seeded search over line-level interleavings of real threads; '
                 'each thread\'s canonical observation log must equal the log '
-                'of the same program run alone, plus global invariants on '
+                'of the same program run alone (computed first, in a forked '
+                'child, so that neither side inherits the other\'s effects on '
+                'process-wide state), an operation performed after all threads '
+                'finished must equal the same operation after the alone runs, '
+                'plus global invariants on '
                 'sequence ids, the tracking flag and the exception-class '
                 'cache; a failing interleaving is minimised to a scripted turn '
                 'list that replays without any PRNG'),
@@ -206,7 +245,12 @@ _add(
           '/ dict, factory of factory, Config inside factory, Partial inside '
           'Partial, positional factories on *args signatures, shared constant '
           'nodes and containers) and a history of builds and 2-6 calls with '
-          'keyword overrides and extra positionals; one canon over all results '
+          'keyword overrides and extra positionals; faults: a factory fails on '
+          'its n-th call with one of nine exception classes (the call must '
+          'fail with it in its cause chain, later calls unaffected), bounded '
+          're-entrant calls from a factory, callables that attempt and swallow '
+          'a nested build while the Partial is built, a history of dead decoy '
+          'builds; one canon over all results '
           'of the history vs the reference; non-trivial = >= 2 successful '
           'calls; distinct = distinct case hash'),
     real_vs_stub=REAL + 'stub: configured callables; the PartialModel reference',
@@ -222,8 +266,9 @@ _add(
     design_ref='DESIGN.md 4 (C04)',
     level_note=('trusted: the PartialModel (machines/partial.py PM/RefPartial), '
                 'canon with callables opaque'),
-    technique=('deterministic simulation: seeded nestings and call histories '
-               'against an executable functools.partial reference, replay'),
+    technique=('deterministic simulation with fault injection: seeded '
+               'nestings and call histories, failing / re-entrant factories, '
+               'executable functools.partial reference, replay'),
 )
 
 _HEAP_RVS = REAL + ('stub: configured callables; model heap (MNode graph + '
@@ -236,7 +281,10 @@ _add(
           'pickle round trip, cast, copy_with, deepcopy_with of any live '
           'config, then attribute/index/slice edits and tag edits on ANY node '
           'of ANY live config (values may reference nodes of other live '
-          'configs), build; after every op the joint canon of all live roots is '
+          'configs), tag collections passed as list / tuple / frozenset / one '
+          're-used caller-owned set, leaves that cannot be deep-copied (a '
+          'refusal is loud and accepted, a copy that is returned is checked), '
+          'suspend blocks, build; after every op the joint canon of all live roots is '
           'compared with the model heap and each (original, copy) pair is '
           'checked for shared argument dicts / tag sets / history lists; '
           'non-trivial = >= 3 state-changing ops; distinct = distinct case hash'),
@@ -244,7 +292,8 @@ _add(
     assumptions=['a mismatch confined to the edited node itself is C03 '
                  'territory and discards the run (counted)',
                  'values that would create a reference cycle are skipped'],
-    required_probes=['copies', 'edit_after_copy', 'tag_edits'],
+    required_probes=['copies', 'edit_after_copy', 'tag_edits',
+                     'uncopyable_refused'],
     level_text=('seeded search over copy/edit histories on a heap; the joint '
                 'canonical form of all live configurations after every '
                 'operation decides faithfulness, preserved sharing, and that '
@@ -262,15 +311,22 @@ _add(
           'ops: add/remove/set/clear tag by name and index (valid and invalid), '
           'TaggedValue assignment with/without value to keyword / positional / '
           '**kwargs arguments and inside containers, set_tagged, '
-          'select(tag).replace, list_tags +- superclasses, transports (copy, '
+          'select(tag).replace (also with mutable values and TaggedValues as '
+          'the replacement: per-site copies), kept selection objects, '
+          'update_callable (incl. a **kwargs target) as a step and inside diffs, '
+          'a string tag annotation whose global appears later, '
+          'list_tags +- superclasses, transports (copy, '
           'deepcopy, pickle, cast, JSON round trip, build_diff+apply_diff of '
           'tag edits), build; joint canon incl. every tag set after every op; '
           'non-trivial / distinct as C07'),
     real_vs_stub=_HEAP_RVS,
     assumptions=['set_tagged on a tag that sits on an unset *args position is '
                  'unspecified (run discarded)',
-                 'select(tag).replace deep-copies the value per site; only '
-                 'immutable replacement values are generated for it',
+                 'select(tag).replace deep-copies the value per site (modelled); '
+                 'the ORDER in which one broadcast creates several **kwargs '
+                 'entries is unspecified (the model adopts fiddle\'s)',
+                 'tags left behind or addressed by position across an '
+                 'update_callable are unspecified (skipped)',
                  'iteration of a tag selection belongs to C15 (N/A) and is '
                  'not asserted'],
     required_probes=['tag_edits', 'tag_broadcasts',
@@ -304,7 +360,13 @@ _add(
           'document (truncate, bit flips, JSON subtree dup/swap, pyref '
           'retargeted to eval / os.system / subprocess.call / a refused stub / a '
           'missing module, import seam failing) loaded under a restrictive '
-          'recording policy with the two policy monitors; non-trivial = >= 1 '
+          'recording policy with the two policy monitors; concurrent arm: two '
+          'simulated threads (baton scheduler, policy callbacks as pause '
+          'points) load under DIFFERENT policies, each judged against its own; '
+          'import-race arm: two loads name a module whose first import is slow '
+          'and rebinds the name at its end (the import lock is modelled by a '
+          'schedulable lock); migration arm: a symbol migration is registered '
+          'between two dumps of one value; non-trivial = >= 1 '
           'document produced; distinct = distinct case hash'),
     real_vs_stub=REAL + ('stub: configured callables, the recording '
                          'PyrefPolicy, the import seam (serialization.importlib '
@@ -318,7 +380,8 @@ _add(
                  'set members are hashable leaves; object names and set order '
                  'in the document are canonicalised before comparing'],
     required_probes=['round_trips', 'cross_process_reads', 'damaged_loads',
-                     'damaged_loads_returned', 'policy_refusals_under_damage'],
+                     'damaged_loads_returned', 'policy_refusals_under_damage',
+                     'concurrent_load_pairs', 'symbol_migrated_between_dumps'],
     level_text=('seeded search over values x damages x import failures x '
                 'policies; lossless-or-loud decided by canon equality and a '
                 'canonicalised second document, on the reader side of a '
@@ -331,14 +394,15 @@ _add(
                 'through the policy object'),
     technique=('deterministic simulation with fault injection: seeded values, '
                'document-damaging medium, failing import seam, recording '
-               'policy monitors, second-interpreter reader, replay'),
+               'policy monitors, second-interpreter reader, two-thread arms '
+               'under the baton scheduler, replay'),
 )
 
 _add(
     'C18', machine='flags', level='exploration',
     tiers={'quick': {'count': 16000, 'budget_s': 40},
            'thorough': {'count': 800000, 'budget_s': 780}},
-    rule=('one FiddleFlag object per run; a history of parse([1-3 '
+    rule=('one or two FiddleFlag objects per run; a history of parse([1-3 '
           'directives]) / read .value / "serialize and feed to a fresh flag as '
           'config_str:" steps; directives: config:base_gen(<literal spec>), '
           'set:PATH=repr(v) with PATH drawn from as_dict_flattened / '
@@ -346,19 +410,25 @@ _add(
           'list indices, str and int dict keys, positional arguments; tuples '
           'excluded), fiddler:name(lits) with fiddlers that do not commute '
           'with set: (mutating and replacing); malformed / misplaced '
-          'directives injected; non-trivial = >= 2 directives applied; '
+          'directives injected, after which the run CONTINUES (a later read may '
+          'fail again; a value that is returned reflects every other directive '
+          'in order); a second, interleaved flag object; the module attribute a '
+          'fiddler directive names is rebound between directives; a leaf whose '
+          '__repr__ raises while the config is printed; non-trivial = >= 2 directives applied; '
           'distinct = distinct case hash'),
     real_vs_stub=REAL + ('real absl MultiFlag machinery; stub: configured '
                          'callables, base-config function and fiddlers in '
                          'fsim/stubmod.py'),
     assumptions=['the model applies set: with exec("cfg" + accessor + " = " + '
                  'literal): Python is the independent path grammar',
-                 'after a refused directive the run ends (state unspecified)',
+                 'after a reported directive failure a later read may fail '
+                 'again (then the run ends)',
                  'legacy flag API is documented as not order-preserving and '
                  'is not driven'],
     required_probes=['set_directives', 'set_on_nested_path',
                      'fiddler_directives', 'config_str_roundtrips',
-                     'dict_paths_checked', 'str_paths_checked'],
+                     'dict_paths_checked', 'str_paths_checked',
+                     'reads_after_reported_failure_pending', 'fiddler_rebound'],
     level_text=('seeded search over directive histories on a lazily evaluated '
                 'flag object; at every read the flag value equals the '
                 'directives applied in command-line order by plain Python, '
